@@ -84,6 +84,7 @@ type Val struct {
 	T   uint64 `json:"t,omitempty"`
 	F   uint64 `json:"f,omitempty"`
 	Sp  uint8  `json:"sp,omitempty"` // Go spelling of integers
+	Nil bool   `json:"nil,omitempty"` // KBytes only: the caller holds a nil []byte (CBOR null on the wire)
 }
 
 // KV is a map entry.
@@ -263,6 +264,9 @@ func Encode(v Val, ch Chooser) []byte {
 		}
 		return head(0, v.U, ch)
 	case KBytes:
+		if v.Nil && len(v.B) == 0 {
+			return []byte{0xf6} // a nil Go slice is CBOR null on the wire, not a byte string
+		}
 		return append(head(2, uint64(len(v.B)), ch), v.B...)
 	case KText:
 		return append(head(3, uint64(len(v.B)), ch), v.B...)
